@@ -63,9 +63,14 @@ extern uint64_t PIECE_HASH[PIECE_NUM][SQUARE_NUM];
 extern uint64_t CASTLING_HASH[1 << 4];
 extern uint64_t SIDE_HASH;
 extern uint64_t ENPASSANT_HASH[FILE_NUM];
+// internals the harness reads are probed in the sources by tools/vbuild.py (VH_* defines): a refactoring that removes one of them
+// costs only the checks that need it, not the whole harness
+#ifdef VH_IMPORTANCE_FN
 double importance(double x);
+#endif
+#ifdef VH_LMR_FN
 int late_move_reduction(Depth depth, int move_number);
-Value compute_search_delta(Move* previous_best_moves, Depth current_depth, Value current_score);
+#endif
 namespace bitbase { extern uint32_t BITBASE[]; }
 }  // namespace engine
 
@@ -103,10 +108,19 @@ static void dump_tables()
     arri("ROOK_INDEX_BITS", ROOK_INDEX_BITS, 64);
     arr("CASTLING_PATHS", CASTLING_PATHS, 16);
     arr("QUEEN_CASTLING_BLOCK", QUEEN_CASTLING_BLOCK, 2);
-    printf("MAX_DEPTH %d\nMAX_PLIES %d\nMAX_MOVES %d\nMAX_PINS %d\n", MAX_DEPTH, MAX_PLIES, MAX_MOVES, MAX_PINS);
+    printf("MAX_DEPTH %d\nMAX_PLIES %d\nMAX_MOVES %d\n", MAX_DEPTH, MAX_PLIES, MAX_MOVES);
+#ifdef VH_MAX_PINS
+    printf("MAX_PINS %d\n", MAX_PINS);
+#else
+    printf("MAX_PINS 0\n");   // no such array in this tree
+#endif
     printf("STACK_INFO_SIZE %zu\n", std::tuple_size<StackInfo>::value);
     printf("PV_LIST_SIZE %zu\n", std::tuple_size<decltype(Info::_pv_list)>::value);
+#ifdef VH_MOVE_LIST
     printf("MOVE_LIST_ROWS %zu\n", sizeof(MOVE_LIST) / sizeof(MOVE_LIST[0]));
+#else
+    printf("MOVE_LIST_ROWS 0\n");
+#endif
     printf("SEARCHMOVES_CAP %zu\n", sizeof(Limits::searchmoves) / sizeof(Move));
     printf("PIECE_LIST_CAP %zu\n", sizeof(Position::_piece_position[0]) / sizeof(Square));
     printf("STOP_FLAG_ATOMIC %d\n", (int)std::is_same_v<decltype(Search::stop_search), std::atomic<bool>>);
@@ -118,6 +132,31 @@ static void dump_tables()
     printf("\nPIECE_VALUE_EG");
     for (int i = 0; i < 7; ++i) printf(" %" PRId64, PIECE_VALUE[i].eg);
     printf("\n");
+    // evaluator constants of value.h, as compiled (the model's Model/Eval.lean reads them from Gen/EvalConsts.lean)
+    {
+        auto sc = [](const char* name, const Score& v) { printf("EVALSC_%s %" PRId64 " %" PRId64 "\n", name, (int64_t)v.mg, (int64_t)v.eg); };
+        auto scarr = [](const char* name, const Score* v, int n) {
+            printf("EVALARR_%s_MG", name); for (int i = 0; i < n; ++i) printf(" %" PRId64, (int64_t)v[i].mg); printf("\n");
+            printf("EVALARR_%s_EG", name); for (int i = 0; i < n; ++i) printf(" %" PRId64, (int64_t)v[i].eg); printf("\n");
+        };
+        auto varr = [](const char* name, const Value* v, int n) {
+            printf("EVALVAL_%s", name); for (int i = 0; i < n; ++i) printf(" %" PRId64, (int64_t)v[i]); printf("\n");
+        };
+        scarr("MOBILITY_BONUS", MOBILITY_BONUS, 7);
+        scarr("CONTROL_SPACE", CONTROL_SPACE, 7);
+        scarr("KING_PROTECTOR_PENALTY", KING_PROTECTOR_PENALTY, 7);
+        scarr("KING_ATTACKER_PENALTY", KING_ATTACKER_PENALTY, 7);
+        varr("PASSED_PAWN_RANK_WEIGHT", PASSED_PAWN_RANK_WEIGHT, 8);
+        varr("CONNECTED_PAWNS_BONUS", CONNECTED_PAWNS_BONUS, 8);
+#define EVSC(n) sc(#n, n)
+        EVSC(ROOK_SEMIOPEN_FILE_BONUS); EVSC(ROOK_OPEN_FILE_BONUS); EVSC(TRAPPED_ROOK_PENALTY); EVSC(BISHOP_PAIR_BONUS);
+        EVSC(CONNECTED_ROOKS_BONUS); EVSC(OUTPOST_KNIGHT_BONUS); EVSC(OUTPOST_BISHOP_BONUS); EVSC(PAWN_CONTROL_CENTER_BONUS);
+        EVSC(PASSED_PAWN_BONUS); EVSC(DOUBLE_PAWN_PENALTY); EVSC(BACKWARD_PAWN_PENALTY); EVSC(ISOLATED_PAWN_PENALTY);
+        EVSC(KING_SAFETY_BONUS); EVSC(SAFE_KNIGHT); EVSC(CONTROL_CENTER_KNIGHT); EVSC(VULNERABLE_QUEEN_PENALTY);
+        EVSC(WEAK_BACKRANK_PENALTY); EVSC(WEAK_KING_DIAGONALS); EVSC(WEAK_KING_LINES); EVSC(KING_PAWN_PROXIMITY_PENALTY);
+        EVSC(PAWNS_ON_SAME_COLOR_AS_BISHOP_PENALTY);
+#undef EVSC
+    }
     // Polyglot randoms as the built code uses them: key of a one-piece position, Black to move (no turn key)
     const char pcs[] = " PNBRQKpnbrqk";
     for (int pc = 1; pc <= 12; ++pc)
@@ -171,12 +210,20 @@ static void dump_tables()
         printf("\n");
     }
     printf("LMR");
+#ifdef VH_LMR_FN
     for (int m = 1; m <= 70; ++m) printf(" %d", late_move_reduction(5, m));
+#else
+    for (int m = 1; m <= 70; ++m) printf(" 0");
+#endif
     printf("\n");
     printf("IMPORTANCE_BITS");
     for (int x = 0; x <= 1500; ++x)
     {
+#ifdef VH_IMPORTANCE_FN
         double d = importance((double)x);
+#else
+        double d = 0.0;
+#endif
         uint64_t u; memcpy(&u, &d, 8);
         printf(" %" PRIu64, u);
     }
@@ -342,11 +389,38 @@ static void park_sched(int point)
     }
 }
 
+// ---- clock interposition: every clock read of a non-main thread (the search thread) is a schedule point.  VERIF_PARK="9:nth:ms"
+// parks the search thread right AFTER it has read the clock for the nth time (it reports PARKED, the driver sends `stop`, the thread
+// then goes on with the stale time value): code that decides about stopping from a clock read must not lose a stop that lands there.
+static std::thread::id g_main_thread;
+static std::atomic<int> g_clock_reads{0};
+static int g_clock_nth = -1, g_clock_ms = 0;
+namespace std { namespace chrono { inline namespace _V2 {
+steady_clock::time_point steady_clock::now() noexcept
+{
+    timespec ts;
+    clock_gettime(CLOCK_MONOTONIC, &ts);
+    time_point t(duration(std::chrono::seconds(ts.tv_sec) + std::chrono::nanoseconds(ts.tv_nsec)));
+    if (g_clock_nth > 0 && std::this_thread::get_id() != g_main_thread)
+    {
+        int n = ++g_clock_reads;
+        if (n == g_clock_nth)
+        {
+            fprintf(stderr, "PARKED point=clock nth=%d\n", n);
+            timespec req{g_clock_ms / 1000, (g_clock_ms % 1000) * 1000000L};
+            nanosleep(&req, nullptr);
+        }
+    }
+    return t;
+}
+}}}
+
 #include "cppdrv_search.inc"
 
 int main(int argc, char** argv)
 {
     std::ios::sync_with_stdio(true);
+    g_main_thread = std::this_thread::get_id();
     move_bitboards::init();
     zobrist::init();
     bitbase::init();
@@ -360,7 +434,8 @@ int main(int argc, char** argv)
         if (const char* e = getenv("VERIF_PARK"))
         {
             sscanf(e, "%d:%d:%d", &g_park_point, &g_park_nth, &g_park_ms);
-            verif::sched_fn = park_sched;
+            if (g_park_point == 9) { g_clock_nth = g_park_nth; g_clock_ms = g_park_ms; g_park_point = -1; }
+            else verif::sched_fn = park_sched;
         }
         Uci u; u.loop();
         // give a detached search thread the chance to finish printing before the process exits
